@@ -67,8 +67,10 @@ def logprior_clause(ctx, model, comp, vectors, case):
     if not vs or n == 0:
         return
     # a shorter vector: Python's map stops at the shorter argument
-    if n >= 2 and ctx.rng.random() < 0.3:
-        vs.append(vs[0][: ctx.rng.randint(1, n - 1)])
+    import random
+    rng = random.Random(f"C04-logprior-{ctx.seed}-{ctx.evaluations}")   # derived from the run's seed; leaves the main stream as it was
+    if n >= 2 and rng.random() < 0.3:
+        vs.append(vs[0][: rng.randint(1, n - 1)])
     real = []
     for v in vs:
         try:
